@@ -246,8 +246,9 @@ def run_opt(spec, rec, dadi):
                 rec.check("extra-arguments-passed-through:" + oname, all(e == want for e in recm.extras_seen), site=site, tags=tags,
                           observed=recm.extras_seen[:2], expected=want)
                 if extras["verbose"] and not oname.startswith("opt-") and oname != "optimize_grid":
-                    okf = os.path.exists(extras["output_file"]) and os.path.getsize(extras["output_file"]) > 0
-                    rec.check("progress-written-to-output_file", bool(okf), site=site, tags=tags)
+                    # (what is printed depends on a module-wide call counter, so only the file's existence is required)
+                    rec.check("progress-written-to-output_file", os.path.exists(extras["output_file"]), site=site, tags=tags)
+                    rec.hit("output_file-nonempty" if os.path.exists(extras["output_file"]) and os.path.getsize(extras["output_file"]) else "output_file-empty")
             start_full = np.array([fixed[i] if (fixed is not None and fixed[i] is not None) else p0[i] for i in range(npar)])
             if oname != "optimize_grid":
                 d = np.max(np.abs(hist[0] - start_full) / np.maximum(np.abs(start_full), 1e-300))
